@@ -52,7 +52,12 @@ var c20Programs = [][3]string{
 	{"BEGIN { a = [1]; print a[0 - 2] }", "err", ""},
 	{"BEGIN { a = []; a[1000] = 1; print a.length() }", "ok", "1001\n"},
 	{"BEGIN { printf('%3000s|', 'x'); print 'ok' }", "ok", strings.Repeat(" ", 2999) + "x|ok\n"},
+	{"BEGIN { printf('%65536s|', 'x'); print 'ok' }", "ok", strings.Repeat(" ", 65535) + "x|ok\n"},
+	{"BEGIN { printf('%-65536v|', 'x'); print 'ok' }", "ok", "x" + strings.Repeat(" ", 65535) + "|ok\n"},
+	{"BEGIN { printf('%065535f|', 1); print 'ok' }", "ok", strings.Repeat("0", 65534) + "1|ok\n"},
 	{"BEGIN { print 'start'; printf('%65537s', 'x'); print 'never' }", "err", "start\n"},
+	{"BEGIN { print 'start'; printf('%-65537s', 'x'); print 'never' }", "err", "start\n"},
+	{"BEGIN { a = []; a[1048576] = 1; print a.length() }", "ok", "1048577\n"},
 	{"BEGIN { print 'start'; printf('%-1000000s', 'x'); print 'never' }", "err", "start\n"},
 }
 
